@@ -4,6 +4,30 @@ import json, os
 ROOT = os.path.dirname(os.path.abspath(__file__))
 props = [json.loads(l) for l in open(os.path.join(ROOT, "properties.jsonl"))]
 
+# dimensions added after the seeded-change rounds (appended to the level text)
+ADDED = {
+ "C01": "Also: a refresh round with two registered templates before the data (udp/dtls), and applications that reuse one list of element objects for all records.",
+ "C02": "Also: applications that reuse their element objects, MakeDataSet, and a collector that does not read for a while so that sends block while the connection check runs (the stream must still tile into well-formed messages).",
+ "C03": "Also: a fixed-length string element, unknown elements under enterprise numbers above 2^16 that alias registered ones, and the same oracle at log verbosity 5.",
+ "C04": "Also: tcp sessions configured with a template TTL while time passes (templates of a tcp session never expire).",
+ "C05": "Also: fields appended to a record by the user (external fields) must survive every reset and export.",
+ "C06": "Also: one timeout switched off by the largest duration, a burst of thousands of flows through the same model, and two real-time scenarios with a blocking export callback (structural invariants only).",
+ "C07": "Also: the exported MaxRetries setting as a case dimension (0..3).",
+ "C08": "Also: template id ranges 256.., 1000.., 65533.. and the reserved range below 256.",
+ "C09": "Also: single-record sets built through MakeDataSet, and a JSON-output-mode phase (refused sets write nothing; accepted records are JSON documents; byte counts add up).",
+ "C10": "Also: the unconfigured TTL (default 1800 s).",
+ "C11": "Also: long-lived real plain and TLS connections whose stream pauses 6 s (thorough up to 65 s) inside a message.",
+ "C12": "Also: Stop after a Start that could not bring the server up, and hundreds of clients connected at once in waves followed by one ordinary client.",
+ "C13": "Also: programs at log verbosity 5, and a burst of thousands of flows ingested and expired by concurrent goroutines (each exported exactly once).",
+ "C14": "Also: JSON-mode exporters under refresh activity, the idle-close scenario over TLS, the real refresh ticker over DTLS, and a refresh round that cannot rebuild a registered template (next SendSet and Close must return).",
+ "C15": "Also: every registry element of a supported type once per position, and one unknown element announced with every length 1..64 and variable-length in one lenient collector.",
+ "C16": "Also: element lists holding an element whose declared type has no encoder.",
+ "C17": "Also: templates of 60-140 fields and unknown elements under enterprise numbers above 2^16 that alias registered ones.",
+ "C18": "Beyond the matrix: the collector addressed by host name, security settings with the network names tcp4/tcp6/udp4/udp6 (nothing may travel in clear), and a generated phase of server identities (intermediates presented / withheld / not a CA / expired, SAN lists with wildcards and IP literals, validity windows) judged by a predicate written from the statement.",
+ "C19": "Also: KafkaLogSuccesses on, a slow broker side, messages with more records than the queues hold, and a watchdog for a producer that stops making progress.",
+ "C20": "Also: records that repeat an element, and messages whose rendering is far larger than any wire message.",
+}
+
 # id -> (technique, level text, level note, design ref)
 CLAIMED = {
  "C15": ("property-based testing: exhaustive enumeration of 8/16-bit types and all boundary lengths + rapid boundary/random generation against an independent reference codec (differential + round trip); native go fuzzing in the thorough tier",
@@ -66,7 +90,7 @@ CLAIMED.update({
 })
 CLAIMED.update({
  "C18": ("exhaustive enumeration of the stated configuration matrix (generated cells, independent accept/refuse predicate as oracle), fault-style certificates minted in-process",
-         "All 113 distinct sessions of the matrix run in both tiers: library exporter (TLS x server max version 1.1/1.2/1.3, DTLS) against a harness-controlled server with each of 7 server certificates x 3 ServerName settings; harness TLS client with each of 4 client certificates x 3 max versions against the library collector with and without client CA; plaintext peers against encrypted endpoints and encrypted exporters against plaintext collectors. A predicate written from the statement decides each cell; refused cells must fail InitExportingProcess / deliver nothing, accepted ones must deliver through a session of version >= 1.2. Only the listed certificate faults; no cryptographic analysis.",
+         "All distinct sessions of the matrix (383 cells) run in both tiers: library exporter (TLS x server max version 1.1/1.2/1.3, DTLS) against a harness-controlled server with each of 7 server certificates x 3 ServerName settings; harness TLS client with each of 4 client certificates x 3 max versions against the library collector with and without client CA; plaintext peers against encrypted endpoints and encrypted exporters against plaintext collectors. A predicate written from the statement decides each cell; refused cells must fail InitExportingProcess / deliver nothing, accepted ones must deliver through a session of version >= 1.2. Only the listed certificate faults; no cryptographic analysis.",
          "trusted: Go crypto/tls and pion/dtls as harness-side peers; in-process ECDSA certificates; a sentinel from a well-behaved peer proves the collector had processed the cell's connection", "DESIGN.md section 3 C18"),
 })
 CLAIMED.update({
@@ -94,6 +118,8 @@ for p in props:
     i = p["id"]
     if i in CLAIMED:
         tech, text, note, ref = CLAIMED[i]
+        if i in ADDED:
+            text = text.rstrip() + " " + ADDED[i]
         checks.append({
             "property_id": i,
             "quick_cmd": f"./check {i} quick",
